@@ -744,81 +744,73 @@ variable [Abs]
 
 /-! ### `build` preserves meaning -/
 
-/-- **build_num_eval**: the element built for a numeric API-call tree has the tree's value -/
-theorem build_num_eval (env : String → Val) (d : Dialect) : ∀ (u : U) (e : SaExpr), NumU u = true →
-    build u = some e → evalCore env d e = evalNumU env d u
-  | .col n ty, e, _, hb => by
-    simp only [build, Option.some.injEq] at hb; subst hb; rfl
-  | .li i, e, _, hb => by
-    simp only [build, Option.some.injEq] at hb; subst hb; rfl
-  | .ln s, e, _, hb => by
-    simp only [build, Option.some.injEq] at hb; subst hb; rfl
-  | .neg a, e, hu, hb => by
-    simp only [build] at hb
-    cases ha : build a with
-    | none => simp [ha] at hb
-    | some x =>
-      simp only [ha, Option.map_some, Option.some.injEq] at hb; subst hb
-      have nx := build_num a x (by simpa [NumU] using hu) ha
-      simp only [negImpl, evalCore, evalNumU]
-      rw [selfGroup_eval env d .neg x nx.core (Or.inl rfl),
-        build_num_eval env d a x (by simpa [NumU] using hu) ha]
-  | .bin k a b, e, hu, hb => by
-    simp only [NumU, Bool.and_eq_true] at hu
-    simp only [build] at hb
-    cases ha : build a with
-    | none => simp [ha] at hb
-    | some x =>
-      cases hb' : build b with
-      | none => simp [ha, hb'] at hb
-      | some y =>
-        simp only [ha, hb', arithK_isArith k hu.1.1, if_true, Option.some.injEq] at hb
-        subst hb
-        have nx := build_num a x hu.1.2 ha
-        have ny := build_num b y hu.2 hb'
-        obtain ⟨h1, _⟩ := adapt_num k.op (tyOf x) (tyOf y) nx.ty
-        unfold binaryOperate
-        have e : adaptExpression k.op (tyOf x) (tyOf y) =
-            (k.op, (adaptExpression k.op (tyOf x) (tyOf y)).2) := Prod.ext h1 rfl
-        rw [e]
-        simp only
-        rw [constructForOp_eval env d x y k.op _ none (arithK_coreBin k hu.1.1) nx.core nx.wg ny.core ny.wg,
-          build_num_eval env d a x hu.1.2 ha, build_num_eval env d b y hu.2 hb']
-        rfl
-  | .ls _, _, hu, _ => by simp [NumU] at hu
-  | .lb _, _, hu, _ => by simp [NumU] at hu
-  | .null, _, hu, _ => by simp [NumU] at hu
-  | .true_, _, hu, _ => by simp [NumU] at hu
-  | .false_, _, hu, _ => by simp [NumU] at hu
-  | .like _ _ _ _, _, hu, _ => by simp [NumU] at hu
-  | .not_ _, _, hu, _ => by simp [NumU] at hu
-  | .between _ _ _, _, hu, _ => by simp [NumU] at hu
-  | .and_ _, _, hu, _ => by simp [NumU] at hu
-  | .or_ _, _, hu, _ => by simp [NumU] at hu
-  | .case_ _ _ _, _, hu, _ => by simp [NumU] at hu
-  | .cast _ _, _, hu, _ => by simp [NumU] at hu
-  | .coalesce _, _, hu, _ => by simp [NumU] at hu
-  | .subq _ _, _, hu, _ => by simp [NumU] at hu
-  | .inOp _ _ _, _, hu, _ => by simp [NumU] at hu
-  | .tupleIn _ _ _, _, hu, _ => by simp [NumU] at hu
-  | .pi _, _, hu, _ => by simp [NumU] at hu
-  | .ps _, _, hu, _ => by simp [NumU] at hu
-  | .strop _ _ _ _, _, hu, _ => by simp [NumU] at hu
-  | .absent, _, hu, _ => by simp [NumU] at hu
-
 mutual
-/-- no `is_` / `is_not` between two general operands (finding `negate-is-general-operand`:
-    their recorded negate operator is not their negation) -/
+/-- no `is_` / `is_not` between two general operands anywhere in the tree (finding
+    `negate-is-general-operand`: their recorded negate operator is not their negation) -/
 def noIsGen : U → Bool
-  | .bin k _ b => !((k = .is_ || k = .isnot) && (match b with | .null => false | _ => true))
+  | .bin k a b =>
+    !((k = .is_ || k = .isnot) && (match b with | .null => false | _ => true)) &&
+      noIsGen a && noIsGen b
   | .not_ a => noIsGen a
+  | .neg a => noIsGen a
+  | .cast _ a => noIsGen a
   | .and_ cs => noIsGenList cs
   | .or_ cs => noIsGenList cs
+  | .coalesce cs => noIsGenList cs
+  | .case_ v ws e => noIsGen v && noIsGenList ws && noIsGen e
   | _ => true
 def noIsGenList : List U → Bool
   | [] => true
   | u :: us => noIsGen u && noIsGenList us
 end
+
+theorem selfGroup_none_eval (env : String → Val) (d : Dialect) (x : SaExpr) :
+    evalCore env d (selfGroup none x) = evalCore env d x := by
+  unfold selfGroup
+  by_cases hg : wouldGroup none x = true
+  · simp only [hg, if_true]; rfl
+  · have hg' : wouldGroup none x = false := by simpa using hg
+    simp only [hg', Bool.false_eq_true, if_false]
+    have hcol : columnSelfGroup none x = x := by simp [columnSelfGroup]
+    cases x <;> first | rfl | (show evalCore env d (columnSelfGroup _ _) = _; rw [hcol])
+
+theorem groupConds_eval (env : String → Val) (d : Dialect) : ∀ ws : List SaExpr,
+    evalCoreList env d (groupConds ws) = evalCoreList env d ws
+  | [] => rfl
+  | [_] => rfl
+  | c :: r :: rest => by
+    simp only [groupConds, evalCoreList, selfGroup_none_eval, groupConds_eval env d rest]
+
+theorem mkCase_eval (env : String → Val) (d : Dialect) (v : SaExpr) (ws : List SaExpr) (e : SaExpr) :
+    evalCore env d (mkCase v ws e) =
+      caseVal (isAbsent v) (evalCore env d v) (evalCoreList env d ws) (isAbsent e) (evalCore env d e) := by
+  simp only [mkCase, evalCore, groupConds_eval]
+
+theorem fnVal_coalesce (vs : List Val) : fnVal "coalesce" vs = coalesceVal vs := by
+  simp [fnVal]
+
+theorem mkFunc_coalesce_eval (env : String → Val) (d : Dialect) (es : List SaExpr)
+    (h : ∀ e ∈ es, Core e = true) :
+    evalCore env d (mkFunc "coalesce" es) = coalesceVal (evalCoreList env d es) := by
+  simp only [mkFunc, evalCore, fnVal_coalesce]
+  rw [evalCoreList_map_selfGroup env d .comma_op (Or.inr trivial) es
+    (fun c hc => ⟨h c hc, Or.inl rfl⟩)]
+
+theorem caseSimple_eval (env : String → Val) (d : Dialect) (v : Val) :
+    ∀ (n : Nat) (ws : List U), ws.length = 2 * n → ∀ tail : List Val,
+      caseSimpleVal v (evalNumUList env d ws ++ tail) = evalSimple env d v ws (caseSimpleVal v tail)
+  | 0, ws, h, tail => by
+    have : ws = [] := List.eq_nil_of_length_eq_zero (by omega)
+    subst this
+    simp [evalNumUList, evalSimple]
+  | n + 1, ws, h, tail => by
+    match ws, h with
+    | c :: r :: rest, h =>
+      have hl : rest.length = 2 * n := by simp only [List.length_cons] at h; omega
+      simp only [evalNumUList, List.cons_append, caseSimpleVal, evalSimple,
+        caseSimple_eval env d v n rest hl tail]
+    | [], h => simp at h
+    | [_], h => simp at h; omega
 
 theorem booleanCompare_num_eq (x y : SaExpr) (k : BinK) (hk : cmpK k = true) (hy : NumE y) :
     booleanCompare x k.op y (negateOp k.op) none =
@@ -873,6 +865,180 @@ theorem null_of_match (b : U) (k : BinK)
   cases b <;> first | rfl | (simp at h)
 
 mutual
+/-- **build_num_eval**: the element built for a numeric API-call tree has the tree's value -/
+theorem build_num_eval (env : String → Val) (d : Dialect) : ∀ (u : U) (e : SaExpr), NumU u = true →
+    noIsGen u = true → build u = some e → evalCore env d e = evalNumU env d u
+  | .col n ty, e, _, _, hb => by
+    simp only [build, Option.some.injEq] at hb; subst hb; simp only [evalCore, evalNumU]
+  | .subq n ty, e, _, _, hb => by
+    simp only [build, Option.some.injEq] at hb; subst hb; simp only [evalCore, evalNumU]
+  | .li i, e, _, _, hb => by
+    simp only [build, Option.some.injEq] at hb; subst hb; simp only [evalCore, evalNumU, litVal]
+  | .ln s, e, _, _, hb => by
+    simp only [build, Option.some.injEq] at hb; subst hb; simp only [evalCore, evalNumU, litVal]
+  | .neg a, e, hu, hn, hb => by
+    simp only [build] at hb
+    cases ha : build a with
+    | none => simp [ha] at hb
+    | some x =>
+      simp only [ha, Option.map_some, Option.some.injEq] at hb; subst hb
+      have nx := build_num a x (by simpa [NumU] using hu) ha
+      simp only [negImpl, evalCore, evalNumU]
+      rw [selfGroup_eval env d .neg x nx.core (Or.inl rfl),
+        build_num_eval env d a x (by simpa [NumU] using hu) (by simpa [noIsGen] using hn) ha]
+  | .cast ty a, e, hu, hn, hb => by
+    simp only [NumU, Bool.and_eq_true] at hu
+    simp only [build] at hb
+    cases ha : build a with
+    | none => simp [ha] at hb
+    | some x =>
+      simp only [ha, Option.map_some, Option.some.injEq] at hb; subst hb
+      simp only [evalCore, evalNumU]
+      rw [build_num_eval env d a x hu.2 (by simpa [noIsGen] using hn) ha]
+  | .coalesce cs, e, hu, hn, hb => by
+    simp only [NumU, Bool.and_eq_true, Bool.not_eq_true'] at hu
+    simp only [build] at hb
+    cases hl : buildList cs with
+    | none => simp [hl] at hb
+    | some es =>
+      simp only [hl, Option.map_some, Option.some.injEq] at hb; subst hb
+      have hne := build_numList cs es hu.2 hl
+      rw [mkFunc_coalesce_eval env d es (fun c hc => (hne c hc).core),
+        build_numList_eval env d cs es hu.2 (by simpa [noIsGen] using hn) hl]
+      simp only [evalNumU]
+  | .case_ v ws el, e, hu, hn, hb => by
+    simp only [NumU, Bool.and_eq_true, Bool.not_eq_true', Bool.or_eq_true] at hu
+    obtain ⟨⟨hne, hvw⟩, hel⟩ := hu
+    simp only [noIsGen, Bool.and_eq_true] at hn
+    simp only [build] at hb
+    cases hv : build v with
+    | none => simp [hv] at hb
+    | some v' =>
+      cases hl : buildList ws with
+      | none => simp [hv, hl] at hb
+      | some es =>
+        cases he : build el with
+        | none => simp [hv, hl, he] at hb
+        | some e' =>
+          simp only [hv, hl, he, Option.some.injEq] at hb; subst hb
+          rw [mkCase_eval]
+          -- the ELSE part
+          have hE : ∀ f : List Val → Val, f [] = Val.null → (∀ x, f [x] = x) →
+              f (if isAbsent e' = true then [] else [evalCore env d e']) = evalNumU env d el := by
+            intro f f0 f1
+            rcases hel with h | h
+            · have := isAbsentU_eq h; subst this
+              simp only [build, Option.some.injEq] at he; subst he
+              simp only [isAbsent, if_true, f0, evalNumU]
+            · have ne' := build_num el e' h he
+              rw [numE_not_absent ne']
+              simp only [Bool.false_eq_true, if_false, f1]
+              exact build_num_eval env d el e' h hn.2 he
+          by_cases hav : isAbsentU v = true
+          · simp only [hav, if_true] at hvw
+            have := isAbsentU_eq hav; subst this
+            simp only [build, Option.some.injEq] at hv; subst hv
+            have hA : isAbsent SaExpr.absent = true := rfl
+            have hA' : isAbsentU U.absent = true := rfl
+            simp only [caseVal, hA, hA', if_true, evalNumU]
+            rw [build_searched_eval env d ws es hvw hn.1.2 hl,
+              hE caseSearchedVal rfl (fun _ => rfl)]
+          · have hav' : isAbsentU v = false := by simpa using hav
+            simp only [hav', Bool.false_eq_true, if_false, Bool.and_eq_true, decide_eq_true_eq] at hvw
+            have nv := build_num v v' hvw.1.1 hv
+            simp only [caseVal, numE_not_absent nv, Bool.false_eq_true, if_false, evalNumU, hav']
+            rw [build_numList_eval env d ws es hvw.1.2 hn.1.2 hl,
+              build_num_eval env d v v' hvw.1.1 hn.1.1 hv,
+              caseSimple_eval env d _ (ws.length / 2) ws (by omega),
+              hE (caseSimpleVal _) rfl (fun _ => rfl)]
+  | .bin k a b, e, hu, hn, hb => by
+    simp only [NumU, Bool.and_eq_true] at hu
+    simp only [noIsGen, Bool.and_eq_true] at hn
+    simp only [build] at hb
+    cases ha : build a with
+    | none => simp [ha] at hb
+    | some x =>
+      cases hb' : build b with
+      | none => simp [ha, hb'] at hb
+      | some y =>
+        simp only [ha, hb', arithK_isArith k hu.1.1, if_true, Option.some.injEq] at hb
+        subst hb
+        have nx := build_num a x hu.1.2 ha
+        have ny := build_num b y hu.2 hb'
+        obtain ⟨h1, _⟩ := adapt_num k.op (tyOf x) (tyOf y) nx.ty
+        unfold binaryOperate
+        have e : adaptExpression k.op (tyOf x) (tyOf y) =
+            (k.op, (adaptExpression k.op (tyOf x) (tyOf y)).2) := Prod.ext h1 rfl
+        rw [e]
+        simp only
+        rw [constructForOp_eval env d x y k.op _ none (arithK_coreBin k hu.1.1) nx.core nx.wg ny.core ny.wg,
+          build_num_eval env d a x hu.1.2 hn.1.2 ha, build_num_eval env d b y hu.2 hn.2 hb']
+        simp only [evalNumU]
+  | .ls _, _, hu, _, _ => by simp [NumU] at hu
+  | .lb _, _, hu, _, _ => by simp [NumU] at hu
+  | .null, _, hu, _, _ => by simp [NumU] at hu
+  | .true_, _, hu, _, _ => by simp [NumU] at hu
+  | .false_, _, hu, _, _ => by simp [NumU] at hu
+  | .like _ _ _ _, _, hu, _, _ => by simp [NumU] at hu
+  | .not_ _, _, hu, _, _ => by simp [NumU] at hu
+  | .between _ _ _, _, hu, _, _ => by simp [NumU] at hu
+  | .and_ _, _, hu, _, _ => by simp [NumU] at hu
+  | .or_ _, _, hu, _, _ => by simp [NumU] at hu
+  | .inOp _ _ _, _, hu, _, _ => by simp [NumU] at hu
+  | .tupleIn _ _ _, _, hu, _, _ => by simp [NumU] at hu
+  | .pi _, _, hu, _, _ => by simp [NumU] at hu
+  | .ps _, _, hu, _, _ => by simp [NumU] at hu
+  | .strop _ _ _ _, _, hu, _, _ => by simp [NumU] at hu
+  | .absent, _, hu, _, _ => by simp [NumU] at hu
+
+theorem build_numList_eval (env : String → Val) (d : Dialect) : ∀ (us : List U) (es : List SaExpr),
+    NumUList us = true → noIsGenList us = true → buildList us = some es →
+    evalCoreList env d es = evalNumUList env d us
+  | [], es, _, _, hb => by
+    simp only [buildList, Option.some.injEq] at hb; subst hb
+    simp only [evalCoreList, evalNumUList]
+  | u :: us, es, hu, hn, hb => by
+    simp only [NumUList, Bool.and_eq_true] at hu
+    simp only [noIsGenList, Bool.and_eq_true] at hn
+    simp only [buildList] at hb
+    cases h1 : build u with
+    | none => simp [h1] at hb
+    | some x =>
+      cases h2 : buildList us with
+      | none => simp [h1, h2] at hb
+      | some xs =>
+        simp only [h1, h2, Option.some.injEq] at hb; subst hb
+        simp only [evalCoreList, evalNumUList, build_num_eval env d u x hu.1 hn.1 h1,
+          build_numList_eval env d us xs hu.2 hn.2 h2]
+
+theorem build_searched_eval (env : String → Val) (d : Dialect) : ∀ (us : List U) (es : List SaExpr),
+    SearchedU us = true → noIsGenList us = true → buildList us = some es → ∀ tail : List Val,
+    caseSearchedVal (evalCoreList env d es ++ tail) = evalSearched env d us (caseSearchedVal tail)
+  | [], es, _, _, hb => by
+    simp only [buildList, Option.some.injEq] at hb; subst hb
+    intro tail
+    simp only [evalCoreList, List.nil_append, evalSearched]
+  | [_], _, hu, _, _ => by simp [SearchedU] at hu
+  | c :: r :: rest, es, hu, hn, hb => by
+    simp only [SearchedU, Bool.and_eq_true] at hu
+    simp only [noIsGenList, Bool.and_eq_true] at hn
+    simp only [buildList] at hb
+    cases h1 : build c with
+    | none => simp [h1] at hb
+    | some c' =>
+      cases h2 : build r with
+      | none => simp [h1, h2] at hb
+      | some r' =>
+        cases h3 : buildList rest with
+        | none => simp [h1, h2, h3] at hb
+        | some rest' =>
+          simp only [h1, h2, h3, Option.some.injEq] at hb; subst hb
+          intro tail
+          obtain ⟨bc, _⟩ := build_bool_eval env d c c' hu.1.1 hn.1 h1
+          have nr := build_num_eval env d r r' hu.1.2 hn.2.1 h2
+          have ih := build_searched_eval env d rest rest' hu.2 hn.2.2 h3 tail
+          simp only [evalCoreList, List.cons_append, caseSearchedVal, evalSearched, bc, nr, ih]
+
 /-- **build_bool_eval**: the element built for a boolean API-call tree evaluates to the tree's
     three-valued meaning (and records sound negations), for every row -/
 theorem build_bool_eval (env : String → Val) (d : Dialect) : ∀ (u : U) (e : SaExpr), BoolU u = true →
@@ -881,13 +1047,17 @@ theorem build_bool_eval (env : String → Val) (d : Dialect) : ∀ (u : U) (e : 
   | .bin k a b, e, hu, hn, hb => by
     simp only [BoolU, Bool.and_eq_true, Bool.or_eq_true] at hu
     obtain ⟨⟨hk, hna⟩, hbb⟩ := hu
+    have hn3 : noIsGen a = true ∧ noIsGen b = true := by
+      have h' := hn
+      simp only [noIsGen, Bool.and_eq_true] at h'
+      exact ⟨h'.1.2, h'.2⟩
     simp only [build] at hb
     cases ha : build a with
     | none => simp [ha] at hb
     | some x =>
       have nx := build_num a x hna ha
       have hpl : isPyLit a = false := by cases a <;> first | rfl | (simp [NumU] at hna)
-      have ex := build_num_eval env d a x hna ha
+      have ex := build_num_eval env d a x hna hn3.1 ha
       cases hb' : build b with
       | none => simp [ha, hb'] at hb
       | some y =>
@@ -935,7 +1105,7 @@ theorem build_bool_eval (env : String → Val) (d : Dialect) : ∀ (u : U) (e : 
             · exact h
             · exact absurd (null_of_match b k h) hbn
           have ny := build_num b y hnb hb'
-          have ey := build_num_eval env d b y hnb hb'
+          have ey := build_num_eval env d b y hnb hn3.2 hb'
           have hpr := pyReflected_num x y ny
           simp only [hpr, hpl, Bool.or_false, Bool.false_eq_true, if_false] at hb
           have hb2 : booleanCompare x k.op y (negateOp k.op) none = some e := by
@@ -947,7 +1117,9 @@ theorem build_bool_eval (env : String → Val) (d : Dialect) : ∀ (u : U) (e : 
           subst hb2
           have h6 : k = .eq ∨ k = .ne ∨ k = .lt ∨ k = .le ∨ k = .gt ∨ k = .ge := by
             apply sixCmp_of k hk
-            simpa [noIsGen] using hn
+            have h' := hn
+            simp only [noIsGen, Bool.and_eq_true] at h'
+            simpa using h'.1.1
           obtain ⟨n, hneg⟩ := negate_isSome_cmp k hk
           rw [hneg]
           refine ⟨?_, negSound_construct x y k.op n (cmpK_coreBin k hk) (assoc_cmp k hk)
